@@ -50,7 +50,11 @@ NotifyClauses(notes, view, before, after, reqs, differ, merge) ==
   \cup (IF \A k \in nd : Has(view, notes[k].p) /\ notes[k].sh = At(view, notes[k].p).sh THEN {} ELSE {"metadataNotAsSent"})
   \cup (IF merge THEN (IF dl = {} THEN {} ELSE {"deleteInMergeMode"})
         ELSE (IF \A d \in Due(view, before) : \E k \in dl : notes[k].p = d THEN {} ELSE {"topmostDeleteNotReported"})
-             \cup (IF \A k \in dl : notes[k].p \in Deleted(view, before) \/ notes[k].p \in Gone(view, before) THEN {} ELSE {"deleteOfKeptPath"})
+             \* a delete is reported for a path that goes away: one the new view no longer holds (removed, or below a directory
+             \* that was removed or replaced) - never for a path that is merely REPLACED by an entry of another type (the merge
+             \* loop emits one modify for that; the DiffMergeMC binding shows the real code agrees on all 28561 pairs)
+             \cup (IF \A k \in dl : notes[k].p \in Deleted(view, before) \/ (notes[k].p \in Gone(view, before) /\ ~Has(view, notes[k].p))
+                   THEN {} ELSE {"deleteOfKeptPath"})
              \cup (IF \A k1, k2 \in dl : notes[k1].p = notes[k2].p => k1 = k2 THEN {} ELSE {"deleteReportedTwice"}))
   \cup (IF \A k \in nd : notes[k].dgOK /\ notes[k].hdr = notes[k].sh
                          \* header only for entries whose content is not transferred: directories, links (also when a
